@@ -2,16 +2,24 @@
 
 Correspondence: random valid configuration dictionaries (weights incl. zeros, a negative entry, the smallest accepted
 sum; scalar / vector / default bounds incl. infinities, masks, variable types, both perturbation types, all boundary
-types, linear and non-linear constraints, defaults, optimizer options, filters/estimators/samplers; with and without a
-VariableScaler, a non-linear constraint scaler and an objective scaler in the validation context), a full-precision
-stream, a stream without variables, and a malformed stream (wrong lengths, crossed bounds, non-positive or tiny weight
-sums, wrong / ragged coefficient columns, relative perturbations with infinite bounds, enum values out of range, zero
-perturbations / thresholds).  The real `EnOptConfig.model_validate` result is compared field by field with
-Model/Config.v `validate` inside Coq; validating the object again, its `model_dump(round_trip=True)` and the JSON round
-trip of the dump is compared with the first result; a reachability sweep probes every pydantic model (setattr on each
-field) and every ndarray (flags.writeable and an in-place write) reachable from the three validated objects; accepted
-assignments are compared with the flag map derived from the generated `_mutable()/_immutable()` table (Gen/Gen_C18.v,
-re-extracted fail-closed from the AST on every run together with the table of array stores and array converters).
+types, linear and non-linear constraints, defaults, every optimizer field, option dictionaries {} / None / nested,
+several filters / estimators / samplers of one method, methods with blanks; with and without a VariableScaler, a
+non-linear constraint scaler and an objective scaler in the validation context), a full-precision stream, a stream
+without variables, and a malformed stream (wrong lengths, crossed bounds, non-positive or tiny weight sums, wrong /
+ragged coefficient columns, relative perturbations with infinite bounds, enum values out of range, zero perturbations /
+thresholds).  The real `EnOptConfig.model_validate` result is compared field by field with Model/Config.v `validate`
+inside Coq.  Every accepted configuration is validated again (a) as the object itself, without and with the context
+(identical dump, object unchanged), (b) from `model_dump(round_trip=True)`, (c) from the JSON round trip of the dump,
+(d) from a dictionary holding the validated sub-objects, (e) a second round from the re-validated object, and (f) from
+the same dictionary spelled differently (tuples, ndarrays of the target or another dtype, numpy scalars, 0-d arrays,
+IntEnum members, scalars written out to full length, model instances) in the same context: (b)-(e) must reproduce the
+whole dump exactly (weights within 1e-14) with the same array dtypes and shapes, (f) identically, and overwriting the
+arrays the caller passed in must not change the configuration.  A reachability sweep probes every pydantic model
+(setattr on each field) and every ndarray (flag, element / whole-array / in-place-operator write) reachable from all
+these objects and from a `model_copy(update=...)`; accepted assignments are compared with the flag map derived from the
+generated `_mutable()/_immutable()` table, and every field found holding an array with the generated table of array
+fields (Gen/Gen_C18.v, re-extracted fail-closed from the AST on every run together with the array stores and
+converters, and cross-checked against pydantic's run-time view of the classes).
 """
 from __future__ import annotations
 
@@ -37,27 +45,34 @@ RULE = ("random valid configuration dictionaries: V in 1..6 variables (few-bit d
         "gradient fields left to their defaults, realization_min_success / perturbation_min_success None, below and above the counts, "
         "magnitudes / perturbation types / boundary types scalar or vector (both perturbation types, all three boundary types), optional "
         "linear constraints (1-4 rows, also as a flat coefficient list) and non-linear constraints (1-4) with scalar / vector / infinite "
-        "bounds and filter / estimator index arrays, optimizer options, filters / estimators / samplers tuples; validation context: a "
-        "VariableScaler (scales and/or offsets) in 40 %, a non-linear constraint scaler in 35 % of the cases with such constraints, an "
-        "objective scaler in 20 %; a stream with full 53-bit values (weights, bounds, magnitudes, scales); a stream without variables "
-        "(V = 0); malformed stream: 23 corruptions of a valid dictionary (per-variable / per-constraint arrays of a length that cannot be "
-        "broadcast, lower > upper in variable / linear / non-linear bounds also behind a scaler, weight sum zero, negative or positive but "
-        "below eps, wrong / ragged / missing coefficient columns, relative perturbation with an infinite bound, enum values out of range, "
-        "zero perturbations, zero threshold). Every accepted configuration is validated again as object, as model_dump(round_trip=True) "
-        "and as the JSON round trip of the dump, and all three objects are swept (setattr on every field of every reachable pydantic "
-        "model, flags.writeable and an in-place write on every reachable ndarray). Non-trivial = the configuration was accepted and has "
-        "V >= 2 or a constraint section, or it was rejected by a corruption; distinct = distinct case dictionaries.")
+        "bounds and filter / estimator index arrays, every optimizer field (options {} / None / [] / nested values, methods with blanks), one or "
+        "two filters / estimators / samplers also of the same method and with option dictionaries; validation context: a VariableScaler (scales "
+        "and/or offsets) in 40 %, a non-linear constraint scaler in 35 % of the cases with such constraints, an objective scaler in 20 %; a "
+        "stream with full 53-bit values (weights, bounds, magnitudes, scales); a stream without variables (V = 0); malformed stream: 23 "
+        "corruptions of a valid dictionary (per-variable / per-constraint arrays of a length that cannot be broadcast, lower > upper in "
+        "variable / linear / non-linear bounds also behind a scaler, weight sum zero, negative or positive but below eps, wrong / ragged / "
+        "missing coefficient columns, relative perturbation with an infinite bound, enum values out of range, zero perturbations, zero "
+        "threshold). Every accepted configuration is validated again as object (without / with the context), as model_dump(round_trip=True), "
+        "as the JSON round trip of the dump, as a dictionary of its validated sub-objects, a second round, and from a random re-spelling of "
+        "the dictionary (case['spell']: tuples, ndarrays, numpy scalars, 0-d arrays, enum members, scalars written out, instances) whose "
+        "arrays are overwritten afterwards; all resulting objects and a model_copy(update=..) are swept (setattr on every field of every "
+        "reachable pydantic model; flags.writeable, element / whole-array / in-place-operator writes on every reachable ndarray). "
+        "Non-trivial = the configuration was accepted and has V >= 2 or a constraint section, or it was rejected by a corruption; distinct = "
+        "distinct case dictionaries.")
 ASSUMPTIONS = [
-    "re-validation of a dump is done without a validation context (the external-optimizer hand-off); option dictionaries are user data and not probed",
+    "re-validation of a dump is done without a validation context (the external-optimizer hand-off); a second spelling of the dictionary is validated in the same context as the first",
+    "option dictionaries (dict[str, Any]) are user data: the attribute is probed, the content of the dictionary is not",
+    "rejects mutation = attribute assignment raises and in-place writes to every reachable array raise; explicit unfreezing (ndarray.setflags(write=True) by the owner, object.__setattr__, cfg._is_immutable = False, __dict__) is out of scope; deep copies / pickles of a validated object are not validated configurations",
     "scales of the VariableScaler and of the non-linear constraint scaler are positive and no linear-constraint row vanishes under the scaler (the model returns Unsupported otherwise; never generated)",
     "ropt defines only abstract non-linear-constraint / objective transforms: the harness supplies a scaler dividing the bounds by positive scales and an objective scaler (which must have no effect on validation)",
-    "inputs are finite (NaN weights / bounds pass the code's comparisons and are outside the domain); array fields are given as scalars or flat lists (a 2-D initial_values array is accepted by Array1D and is outside the domain)",
-    "index arrays (realization_filters, function_estimators, samplers) are not broadcast by the code; they are covered by the frozenness sweep only",
+    "inputs are finite (NaN / inf weights and NaN bounds pass the code's comparisons: reported as F18i, outside the domain); array fields are given with the documented dimension (a 2-D array for a 1-D field is accepted by the code: reported as F18d)",
+    "index arrays (realization_filters, function_estimators, samplers) are neither broadcast nor length-checked by the code (reported as F18h); they are covered by the frozenness sweep, the re-validation and the spelling comparison only",
+    "probes that alarm on the unchanged tree are written but switched off by module constants until the findings are decided: PROBE_DELATTR (F18e), PROBE_BASE (F18f), PROBE_SUBOBJECTS_WITH_CONTEXT and SPELL_WEIGHT_INSTANCES (F18g)",
     "frozenness is a run-time fact about Python objects: the model carries it as the generated _mutable()/_immutable() call sequences and array-store sources, and the sweep observes it",
 ]
 TRUSTED = [
     "pydantic's validator order (after-validators in definition order), model_copy/model_construct semantics and numpy's writeable flag semantics (a broadcast view of a read-only array is read-only)",
-    "the AST extraction (fail-closed) of the _mutable()/_immutable() call table, of ImmutableBaseModel.__setattr__'s shape, of the shapes of immutable_array / normalize / broadcast_1d_array / broadcast_arrays, of the Array* converters and of every store into an array field",
+    "the AST extraction (fail-closed) of the _mutable()/_immutable() call table, of ImmutableBaseModel's shape, of the shapes of immutable_array / normalize / broadcast_1d_array / broadcast_arrays, of the Array* converters, of every field annotation and of every store into an array field; cross-checked on every run against pydantic's model_fields / MRO (extra obligation)",
 ]
 
 INF = float("inf")
@@ -595,9 +610,14 @@ def valid_case(rng, V=None, precise=False):
     nest = rng.choice([1, 1, 2])
     if nfilt:
         cfg["realization_filters"] = [{"method": "sort-objective", "options": {"sort": [0], "first": 0, "last": 0}}]
-        obj["realization_filters"] = [rng.choice([-1, 0]) for _ in range(nobj)]
+        if rng.random() < 0.3:       # a second filter of the same method, possibly never referred to
+            nfilt = 2
+            cfg["realization_filters"].append({"method": "sort-objective", "options": {"sort": [0], "first": 0, "last": 1}})
+        obj["realization_filters"] = [rng.choice([-1] + list(range(nfilt))) for _ in range(nobj)]
     if nest == 2 or rng.random() < 0.3:
-        cfg["function_estimators"] = [{"method": "mean"}, {"method": "stddev"}][:nest]
+        cfg["function_estimators"] = [{"method": "mean"}, {"method": rng.choice(["stddev", "mean", " default/mean "])}][:nest]
+        if rng.random() < 0.3:
+            cfg["function_estimators"][-1]["options"] = rng.choice([{}, {"k": 1.5, "deep": {"l": [1, 2, {"m": None}]}}])
         obj["function_estimators"] = [rng.randrange(nest) for _ in range(nobj)]
     if rng.random() < 0.9 or nfilt or "function_estimators" in obj:
         cfg["objectives"] = obj
@@ -620,7 +640,9 @@ def valid_case(rng, V=None, precise=False):
         grad["merge_realizations"] = True
     nsmp = rng.choice([1, 1, 2])
     if nsmp == 2 or rng.random() < 0.3:
-        cfg["samplers"] = [{"method": "norm"}, {"method": "sobol", "shared": True}][:nsmp]
+        cfg["samplers"] = [{"method": "norm"}, {"method": rng.choice(["sobol", "norm", "scipy/norm"]), "shared": True}][:nsmp]
+        if rng.random() < 0.3:
+            cfg["samplers"][0]["options"] = rng.choice([{}, {"scale": 2.0}, {"nested": {"x": [1, 2.5, "s", None, True]}}])
         grad["samplers"] = [rng.randrange(-1, nsmp) for _ in range(V)]
     if not any_rel and rng.random() < 0.12:
         # defaults of the gradient section (magnitude / types from constants.py); P must stay known to the model
@@ -659,9 +681,14 @@ def valid_case(rng, V=None, precise=False):
             nl["function_estimators"] = [rng.randrange(nest if "function_estimators" in cfg else 1) for _ in range(nl_n)]
         cfg["nonlinear_constraints"] = nl
     if rng.random() < 0.5:
-        opt = {"method": rng.choice(["slsqp", "scipy/slsqp", "scipy/default"])}
+        opt = {"method": rng.choice(["slsqp", "scipy/slsqp", "scipy/default", " slsqp ", "external/scipy/slsqp"])}
         if rng.random() < 0.5:
-            opt["options"] = rng.choice([{"maxiter": 5}, ["a", "b"], {"nested": {"x": [1, 2]}}])
+            opt["options"] = rng.choice([{"maxiter": 5}, ["a", "b"], {"nested": {"x": [1, 2]}}, {}, None, [],
+                                         {"tol": 1e-3, "flags": [True, None, "s", 2.5], "inf": INF}])
+        for key, gen in (("max_iterations", lambda: rng.randint(1, 50)), ("speculative", lambda: True),
+                         ("split_evaluations", lambda: True), ("stdout", lambda: "out.txt"), ("stderr", lambda: "/tmp/err.txt")):
+            if rng.random() < 0.15:
+                opt[key] = gen()
         if rng.random() < 0.5:
             opt["max_functions"] = rng.randint(1, 20)
         if rng.random() < 0.3:
@@ -1125,13 +1152,28 @@ def run_impl(case):
     except ValidationError as e:
         return {"outcome": "reject", "errors": [str(x.get("msg"))[:120] for x in e.errors()[:3]]}
     obs = {"outcome": "ok", "fields": _fields(c)}
-    obs["same"] = bool(EnOptConfig.model_validate(c) is c) and bool(EnOptConfig.model_validate(c, context=tr) is c)
     classes, arrays, accepted, afields = {}, [0, 0], [], set()
     sig = {}
     sweep(c, "cfg", classes, arrays, accepted, sig=sig, afields=afields)
     sig_diff = []
     d = c.model_dump(round_trip=True)
     plain = _plain(d)
+    # validating the validated object, without and with the context: an identical configuration (the text asks for an
+    # equivalent one: the object itself or a copy), as frozen as the first, and the object is left exactly as it was
+    obs["identical"], obs["same_diff"] = True, []
+    for tag, ctx_ in (("again", None), ("again_ctx", tr)):
+        try:
+            c1 = EnOptConfig.model_validate(c, context=ctx_)
+        except ValidationError as e:
+            obs["same_diff"].append(f"{tag} <rejected> {str(e.errors()[:1])[:100]}")
+            continue
+        obs["identical"] = obs["identical"] and c1 is c
+        obs["same_diff"] += [f"{tag}{p_}" for p_ in _diff(plain, _plain(c1.model_dump(round_trip=True)))]
+        if c1 is not c:
+            sweep(c1, tag, classes, arrays, accepted, afields=afields)
+    obs["same_diff"] += ["object changed: " + p_ for p_ in _diff(plain, _plain(c.model_dump(round_trip=True)))]
+    obs["same_diff"] = obs["same_diff"][:10]
+    obs["same"] = not obs["same_diff"]
 
     def again(tag, build, wtol):
         """validate another form of the validated configuration: canonical fields, whole-dump difference, array dtypes/shapes, sweep"""
@@ -1292,8 +1334,16 @@ def coq_case(case, obs):
         return f"(Build_case {cq.q(S)} true {ctx} {_raw_term(cfg)} None false None None None [] (0%nat, 0%nat) [])"
     classes = cq.lst(f"({cq.s(n)}, ({cq.nat(min(p, 5000))}, {cq.nat(min(a, 5000))}))" for n, (p, a) in sorted(obs["classes"].items()))
     afields = cq.lst(f"({cq.s(c)}, {cq.s(f)})" for c, f in obs["array_fields"])
-    return (f"(Build_case {cq.q(S)} false {ctx} {_raw_term(cfg)} {_obs_term(obs['fields'])} {cq.b(obs['same'])} "
-            f"{_obs_term(obs['dump'])} {_obs_term(obs['json'])} {_obs_term(spell)} {classes} "
+    # the four observed configurations are usually the same term: write each distinct term once (a let) -- pure sharing of text,
+    # the checker still compares them
+    names, lets = {}, []
+    for t in (_obs_term(obs["fields"]), _obs_term(obs["dump"]), _obs_term(obs["json"]), _obs_term(spell)):
+        if t not in names:
+            names[t] = f"o{len(names)}"
+            lets.append(f"let {names[t]} : option config := {t} in")
+    o_out, o_dump, o_json, o_spell = (names[_obs_term(x)] for x in (obs["fields"], obs["dump"], obs["json"], spell))
+    return (f"({' '.join(lets)} Build_case {cq.q(S)} false {ctx} {_raw_term(cfg)} {o_out} {cq.b(obs['same'])} "
+            f"{o_dump} {o_json} {o_spell} {classes} "
             f"({cq.nat(min(obs['arrays'][0], 5000))}, {cq.nat(min(obs['arrays'][1], 5000))}) {afields})")
 
 
@@ -1463,7 +1513,7 @@ def oracle(case, obs):
         return {"clause": "threshold-clamped", "detail": {"perturbation_min_success": f["pmin"], "raw": pmin, "P": P}}
     # idempotence
     if not obs["same"]:
-        return {"clause": "revalidating-the-object-returns-it", "detail": None}
+        return {"clause": "revalidating-the-object-equivalent-and-unchanged", "detail": obs["same_diff"][:6]}
     for tag in ("dump", "json", "parts"):
         if obs[tag + "_diff"]:
             return {"clause": "revalidation-of-" + tag + "-equivalent", "detail": obs[tag + "_diff"][:6]}
@@ -1506,6 +1556,7 @@ def features(case, obs):
             "relative": 2 in pt, "linear": "linear_constraints" in cfg, "nonlinear": "nonlinear_constraints" in cfg,
             "mask": "mask" in cfg["variables"], "types": "types" in cfg["variables"],
             "respelled": obs["outcome"] == "ok" and bool(case.get("spell")),
+            "object_returned_itself": obs.get("identical"),
             "index_arrays": sum(k in cfg.get(s_, {}) for s_, k in (("gradient", "samplers"), ("objectives", "realization_filters"),
                                                                    ("objectives", "function_estimators"),
                                                                    ("nonlinear_constraints", "realization_filters"),
@@ -1612,7 +1663,7 @@ def extra_obligations(tier):
 
 
 MANIFEST = {
-    "level_text": ("Machine-checked Coq proofs (Props/C18.v, 29 theorems, all closed under the global context, for every number of variables, "
+    "level_text": ("Machine-checked Coq proofs (Props/C18.v, 33 theorems, all closed under the global context, for every number of variables, "
                    "objectives, realizations and constraints, by induction) about the executable model of EnOptConfig validation that the "
                    "checker runs against the real code (Model/Config.v: normalize, broadcasts, threshold clamps, VariablesConfig, "
                    "GradientConfig.fix_perturbations, LinearConstraintsConfig.apply_transformation, NonlinearConstraintsConfig, with an optional "
@@ -1620,34 +1671,42 @@ MANIFEST = {
                    "have sum one, ratios, zeros and signs preserved), C18_weights_rejected / C18_nonpositive_weights_rejected (a sum below eps, "
                    "in particular <= 0, is rejected), C18_broadcast (every per-variable / per-constraint array has full length), "
                    "C18_broadcast_values (it is the given vector or the repeated scalar, bounds then mapped by the scaler), "
-                   "C18_perturbations_converted (relative magnitudes times the finite bound range, stored as ABSOLUTE), C18_clamped "
-                   "(thresholds = min(threshold, count)), C18_crossed_iff + C18_rejects_crossed_{variable,linear,nonlinear}_bounds, "
-                   "C18_rejects_bad_{variable,gradient,linear,nonlinear}_shapes, C18_rejects_relative_infinite, "
-                   "C18_rejects_bad_gradient_fields, and conversely C18_consistent_accepted (every consistent dictionary is accepted). Stable: "
-                   "C18_validated_canonical, C18_canonical_fixed_point, C18_idempotent (+ C18_idempotent_generated, C18_generated_enums_wf for the "
-                   "enumeration values of the current source): validating the dump of any validated configuration succeeds and yields the same "
-                   "configuration up to == on the weights, again canonical; C18_magnitudes_not_rescaled (fix 8967086: no stored type is RELATIVE, "
-                   "magnitudes and bounds are returned unchanged). Frozen (flag discipline): C18_flags_final_immutable, "
-                   "C18_arrays_stored_immutable, C18_array_types_converted (finite facts over tables regenerated from the source on every run), "
-                   "C18_flag_discipline / C18_last_mutable_not_frozen (the flag machine, all validator sequences). Tied to the code on every run by "
-                   "an in-Coq field-by-field comparison with the real EnOptConfig.model_validate on random, full-precision, empty and malformed "
-                   "dictionaries, re-validation of the object, its dump and the JSON round trip, and a reachability sweep of setattr / in-place "
-                   "writes on all three resulting objects."),
+                   "C18_spelling_irrelevant / C18_scalars_written_out (a scalar and the vector repeating it have the same outcome, accepted or "
+                   "rejected, for every broadcastable field and any context), C18_perturbations_converted (relative magnitudes times the finite "
+                   "bound range, stored as ABSOLUTE), C18_clamped (thresholds = min(threshold, count)), C18_crossed_iff + "
+                   "C18_rejects_crossed_{variable,linear,nonlinear}_bounds, C18_rejects_bad_{variable,gradient,linear,nonlinear}_shapes, "
+                   "C18_rejects_relative_infinite, C18_rejects_bad_gradient_fields, and conversely C18_consistent_accepted (every consistent "
+                   "dictionary is accepted). Stable: C18_validated_canonical, C18_canonical_fixed_point, C18_idempotent (+ "
+                   "C18_idempotent_generated, C18_generated_enums_wf for the enumeration values of the current source): validating the dump of any "
+                   "validated configuration succeeds and yields the same configuration up to == on the weights, again canonical; "
+                   "C18_stable_under_repeated_revalidation (any number of hand-offs), C18_equivalence_relation; C18_magnitudes_not_rescaled (fix "
+                   "8967086: no stored type is RELATIVE, magnitudes and bounds are returned unchanged). Frozen (flag discipline): "
+                   "C18_flags_final_immutable, C18_arrays_stored_immutable, C18_array_types_converted (finite facts over tables regenerated from the "
+                   "source on every run), C18_flag_discipline / C18_last_mutable_not_frozen (the flag machine, all validator sequences). Tied to the "
+                   "code on every run by an in-Coq field-by-field comparison with the real EnOptConfig.model_validate on random, full-precision, "
+                   "empty and malformed dictionaries; re-validation of the object (without / with context), its dump, the JSON round trip, the "
+                   "dictionary of its sub-objects, a second round and a re-spelled dictionary (exact comparison of whole dumps, array dtypes and "
+                   "shapes; no memory shared with the caller's arrays); and a reachability sweep of setattr / in-place writes on all resulting objects."),
     "level_note": ("Frozenness is PARTIAL: that objects and arrays reject mutation is a run-time fact about Python objects. Proved is the flag "
                    "discipline of the generated tables (every class ends its validators with _immutable() on every path; every store into an "
                    "array field stores the result of immutable_array / normalize / broadcast_1d_array / a broadcast view of an immutable array; "
                    "every Array* type converts with immutable_array) and the general flag machine; that pydantic runs the validators in this "
                    "order and numpy honours the flag is established only by the run-time sweep over the generated configurations (every "
-                   "reachable model: setattr on each field raises; every reachable ndarray: flags.writeable is False and an in-place write "
-                   "raises). No theorem is partial otherwise. Modelled, not verified: pydantic's field conversions and validator order, numpy "
-                   "broadcasting, the VariableScaler formulas (compared on every run); C18_consistent_accepted, C18_perturbations_converted are "
-                   "stated without a transform in the context, the rejection / canonical-form / idempotence theorems with any context. Out of "
-                   "the model: optimizer / sampler option dictionaries (user data), the index arrays realization_filters / function_estimators / "
-                   "samplers (not broadcast by the code; swept only), NaN inputs and 2-D arrays for 1-D fields (accepted by the code, outside "
-                   "the domain of valid dictionaries). Trusted: Coq kernel + VM, the AST translator, the Python driver. Reals are compared with "
-                   "tolerance (1e-12*S + 1e-9*|m|), discrete fields, shapes, flags and outcomes exactly."),
-    "technique": ("Coq proof (monadic validation model over Q and extended reals; canonical-form, rejection, completeness and fixed-point lemmas by "
-                  "list induction; generated flag and array-store tables discharged by computation) + in-Coq differential correspondence + "
-                  "run-time reachability sweep + independent Python oracle of the property clauses"),
+                   "reachable model: setattr on each field raises; every reachable ndarray: flags.writeable is False and element, whole-array and "
+                   "in-place-operator writes raise; every field holding an array is in the generated table; the tables agree with pydantic's "
+                   "run-time view of the classes). No theorem is partial otherwise. NOT alarmed on, reported as findings and probed only "
+                   "behind module constants that are off: attribute deletion is accepted (F18e), arrays created with ndmin keep a writable "
+                   ".base (F18f), validating an already validated sub-configuration object re-runs its validators in place (F18g). Modelled, not "
+                   "verified: pydantic's field conversions and validator order, numpy broadcasting, the VariableScaler formulas (compared on "
+                   "every run); C18_consistent_accepted, C18_perturbations_converted are stated without a transform in the context, the "
+                   "rejection / canonical-form / spelling / idempotence theorems with any context. Out of the model: optimizer / sampler option "
+                   "dictionaries (user data), the index arrays realization_filters / function_estimators / samplers (not broadcast by the code, "
+                   "F18h; swept, re-validated and re-spelled only), NaN inputs (F18i) and 2-D arrays for 1-D fields (F18d) (accepted by the code, "
+                   "outside the domain of valid dictionaries). Trusted: Coq kernel + VM, the AST translator, the Python driver. Reals are "
+                   "compared with tolerance (1e-12*S + 1e-9*|m|) against the model, exactly between validations of the same configuration "
+                   "(1e-14 on re-normalised weights); discrete fields, shapes, dtypes, flags and outcomes exactly."),
+    "technique": ("Coq proof (monadic validation model over Q and extended reals; canonical-form, rejection, completeness, spelling and fixed-point "
+                  "lemmas by list induction; generated flag and array-store tables discharged by computation) + in-Coq differential "
+                  "correspondence + run-time reachability sweep + independent Python oracle of the property clauses"),
     "design_ref": "DESIGN.md section 4, C18",
 }
